@@ -330,6 +330,52 @@ func TestC18(t *testing.T) {
 		}
 	}
 
+	// (3b) glued keys: a verdict must not depend on calls made before. The nine validators have names that are prefixes of
+	// one another (User / UserSet / UserObject / UserWildcard, Object / ObjectID); anything inside the package that files
+	// results under <validator name> + <value> without a separator confuses validator A on x+s with validator B = A+x on
+	// s. Every such pair of calls is made, in both orders, over a small set of values, and the second value is then
+	// checked like any other string.
+	if ev.Shard() == 0 && !failed {
+		type namedV struct {
+			name string
+			f    func(string) bool
+		}
+		vs := []namedV{{"User", validation.ValidateUser}, {"UserSet", validation.ValidateUserSet}, {"UserObject", validation.ValidateUserObject}, {"UserWildcard", validation.ValidateUserWildcard},
+			{"Object", validation.ValidateObject}, {"ObjectID", validation.ValidateObjectID}, {"Type", validation.ValidateType}, {"Relation", validation.ValidateRelation},
+			{"RelationshipCondition", validation.ValidateRelationshipCondition}}
+		values := []string{":a#member", ":1", ":*", "a:1", "a:b#c", "a:*", "1", "a", "#a", ":a", "a#b", ":", ""}
+		var n int64
+	glued:
+		for _, a := range vs {
+			for _, b := range vs {
+				if a.name == b.name || !strings.HasPrefix(strings.ToLower(b.name), strings.ToLower(a.name)) {
+					continue
+				}
+				rest := b.name[len(a.name):]
+				for _, x := range []string{strings.ToLower(rest), rest, strings.ToUpper(rest)} {
+					for _, v := range values {
+						n += 2
+						_ = a.f(x + v)
+						if msg, _ := c18Check(v); msg != "" {
+							msg = fmt.Sprintf("after Validate%s(%q): %s", a.name, x+v, msg)
+							report(v, msg)
+							t.Errorf("glued keys: %s", msg)
+							break glued
+						}
+						_ = b.f(v)
+						if msg, _ := c18Check(x + v); msg != "" {
+							msg = fmt.Sprintf("after Validate%s(%q): %s", b.name, v, msg)
+							report(x+v, msg)
+							t.Errorf("glued keys: %s", msg)
+							break glued
+						}
+					}
+				}
+			}
+		}
+		rec.Bulk(n, n, map[string]int64{"glued-keys:call-pairs": n})
+	}
+
 	// (4) random search
 	if !failed {
 		t.Run("random", rapid.MakeCheck(func(rt *rapid.T) {
